@@ -1,7 +1,7 @@
 (* Properties/C16.v -- Macro 05/06 compaction and GS1 start are exact and lossless (the parts that are theorems). *)
 From Coq Require Import Arith NArith List Bool.
 From DM Require Import Generated.Symbols Generated.ModeTables Model.Outcome Model.SymbolList Model.Planner Model.PlannerRun Model.Enc Model.Dec
-  Model.Api Spec.Stream16022 Proofs.EncLocal Proofs.EncTop Proofs.DecMacro Proofs.DecScript Proofs.EncAscii Proofs.MacroAscii Proofs.EncAB Proofs.EncAX Proofs.EncAC.
+  Model.Api Spec.Stream16022 Proofs.EncLocal Proofs.EncTop Proofs.DecMacro Proofs.DecScript Proofs.EncAscii Proofs.MacroAscii Proofs.EncAB Proofs.EncAX Proofs.EncAC Proofs.EncMulti.
 Import ListNotations.
 Local Open Scope N_scope.
 
@@ -146,6 +146,26 @@ Theorem C16_fnc1_roundtrip_ac : forall (text : bool) sorter data symbols modes u
   decode_data cw = Ok data.
 Proof. exact fnc1_ac_roundtrip. Qed.
 Print Assumptions C16_fnc1_roundtrip_ac.
+
+(* and for any planner and mode set (the default configuration included) whenever the plan for the body mixes only ASCII, Base256, X12, C40 and
+   Text and no non-ASCII run starts within the last two characters (`p5b`, Proofs/EncMulti.v; the planner is called with one codeword written) *)
+Theorem C16_macro_roundtrip_mixed : forall optimize_fn symbols modes msg body m head cw s,
+  (forall p, optimize_fn body 1 symbols modes = Ok (Some p) -> p5b p = true) -> bytes_ok body = true ->
+  (m = MACRO05 /\ head = MACRO05_HEAD) \/ (m = MACRO06 /\ head = MACRO06_HEAD) ->
+  msg = head ++ body ++ MACRO_TRAIL ->
+  encode_data_internal optimize_fn msg symbols None modes true false = Ok (cw, s) ->
+  (exists script npad, script_ok script npad = true /\ cw = stream_with m script npad /\ meaning script = body /\ Forall seg_no_edi script) /\
+  decode_data cw = Ok msg.
+Proof. intros o sy mo msg b m h cw s HP OK HM HD H. exact (macro_plan5_roundtrip o sy mo msg b m h cw s (fun p E => p5b_P5 p (HP p E)) OK HM HD H). Qed.
+Print Assumptions C16_macro_roundtrip_mixed.
+
+Theorem C16_fnc1_roundtrip_mixed : forall optimize_fn symbols modes msg use_macros cw s,
+  (forall p, optimize_fn msg 1 symbols modes = Ok (Some p) -> p5b p = true) -> bytes_ok msg = true ->
+  encode_data_internal optimize_fn msg symbols None modes use_macros true = Ok (cw, s) ->
+  (exists script npad, script_ok script npad = true /\ cw = stream_with 232 script npad /\ meaning script = msg /\ Forall seg_no_edi script) /\
+  decode_data cw = Ok msg.
+Proof. intros o sy mo msg um cw s HP OK H. exact (fnc1_plan5_roundtrip o sy mo msg um cw s (fun p E => p5b_P5 p (HP p E)) OK H). Qed.
+Print Assumptions C16_fnc1_roundtrip_mixed.
 
 (* NOT a theorem here: that the body decodes to itself under the plans that use C40, Text, X12 or EDIFACT (the round trip through
    those mode encoders and the decoder) -- decided per case by the correspondence + reference decoder + certificate, see DESIGN.md. *)
